@@ -33,7 +33,7 @@ def gen_cases(prop, tier, seed, n_quick, n_thorough, families, history_kind='mix
         if empty_shells:
             # the configuration of tests/test_sampler.py::test_sampler_empty_shells: one update per bound, so some
             # shells (possibly the first) stay empty and are removed at the end of exploration
-            cfg.update(n_update=1, n_live=int(rng.choice([10, 12, 15])), n_batch=int(rng.choice([1, 2])), f_live=1e-3,
+            cfg.update(n_update=1, n_live=int(rng.choice([10, 12, 15])), n_batch=int(rng.choice([1, 2])), f_live=1e-2,
                        n_networks=0, n_eff=int(rng.choice([30, 60])), n_shell=1, n_like_new_bound=None, enlarge_per_dim=2.0,
                        n_points_min=None, filepath=True, discard_exploration=bool(i % 4 == 1))
         allow_fault = history_kind == 'mixed' and pool in ('none', 's2')
@@ -43,7 +43,10 @@ def gen_cases(prop, tier, seed, n_quick, n_thorough, families, history_kind='mix
             hist = [op for op in hist if op[0] != 'fault']
             hist += [['finish'], ['resume'], ['run_more', 3 * nb], ['toggle'], ['run_more', 3 * nb], ['resume'],
                      ['run_more', 2 * nb], ['toggle']]
-        cases.append({'i': i, 'seed': seed, 'prob': pspec, 'cfg': cfg, 'hist': hist})
+        case = {'i': i, 'seed': seed, 'prob': pspec, 'cfg': cfg, 'hist': hist}
+        if empty_shells:
+            case['n_like_cap'] = 900        # hundreds of one- or two-point batches are enough
+        cases.append(case)
     return cases
 
 
